@@ -19,7 +19,14 @@ def run(ctx):
         "time: origin_server_ts is placed in the verifier's past (key validity faults are +-1 h around it, the "
         "valid_until_ts = origin_server_ts boundary exactly) or 6 / 8 days in its future (keys valid 30 more days): "
         "the 7-day cap is exercised to +-1 day of the real clock only; the expired_ts boundary is not exercised exactly",
-        "the key ring has no fetchers: every key comes from the database (key fetching is C12's subject)",
+        "key sources: by default every key is in the database and the key ring has no fetcher; for %s the keys of "
+        "%s are only at a key fetcher, and / or the fetcher volunteers an unexpired copy (valid a day from now) "
+        "of every database-held key of a required server; expectation: an expired key held by the database is final, "
+        "a key held past its valid_until_ts is asked for again and the fresher copy counts (state after_vu becomes ok), "
+        "nothing else a fetcher volunteers matters. One VerifyJSONs call per verdict; the database's StoreKeys is a no-op "
+        "(what is written back is C12 / X02 territory)" % (
+            ("room versions 2, 4, 6, 11, 12", "one required server") if ctx.tier == "quick"
+            else ("all room versions but the pseudo-ID one", "any subset of the required servers")),
         "pseudo-ID rooms (org.matrix.msc4014): modelled: the sender key and, for invites, the invited key must have "
         "self-signed (key ID ed25519:1); left out: faults on the mxid_mapping of joins (always present and validly "
         "signed by the user's homeserver here) and join_authorised_via_users_server (it names a user ID whose server "
@@ -31,8 +38,8 @@ def run(ctx):
         "every scenario of EventSigs.tla: 16 room versions x {non-member, join, invite, leave, ban, knock} x target on "
         "the sender's / another server x join_authorised_via_users_server absent / naming the sender's, the target's or "
         "a third server x event-ID server = / != sender's server (room versions 1-2) x (all ok | all absent | %s "
-        "carrying one of 10 non-ok states) x other servers absent / signing validly%s, plus origin_server_ts 6 / 8 days "
-        "ahead; distinct = distinct (kind, roles and states of the required servers, strict / lax / pseudo, others, time)"
+        "carrying one of 10 non-ok states) x other servers absent / signing validly%s x key sources (database / fetcher "
+        "per required server, fetcher volunteering or not), plus origin_server_ts 6 / 8 days ahead; distinct = distinct (kind, roles and states of the required servers, strict / lax / pseudo, others, time)"
         % (("one required server", "") if ctx.tier == "quick" else ("one or two required servers", " / signing invalidly")))
     cfg = "EventSigs_gen_%s.cfg" % ctx.tier
     ctx.notes["constants"] = cfg
